@@ -396,7 +396,10 @@ def check_precedence(rep, date_iso):
         try:
             r = run([tgt, f"{lvl}_id"], specs)
         except Exception as e:  # noqa: BLE001
-            rep.violation(f"precedence:user-spec-at-{lvl}:{tgt}:exception:{type(e).__name__}", {"target": tgt, "specs": specs}, repr(e)[:200])
+            if sim.known_crash(date_iso, e):
+                rep.extra["sims_skipped_known_C08_crash"] = rep.extra.get("sims_skipped_known_C08_crash", 0) + 1
+            else:
+                rep.violation(f"precedence:user-spec-at-{lvl}:{tgt}:exception:{type(e).__name__}", {"target": tgt, "specs": specs, "date": date_iso}, repr(e)[:200])
             continue
         rep.step()
         want = RA.grouped(kind, df[src].tolist(), r[f"{lvl}_id"].tolist())
@@ -407,7 +410,10 @@ def check_precedence(rep, date_iso):
         try:
             r = run([tgt], specs)
         except Exception as e:  # noqa: BLE001
-            rep.violation(f"precedence:{label}:{tgt}:{kind}:exception:{type(e).__name__}", {"target": tgt, "specs": specs}, repr(e))
+            if sim.known_crash(date_iso, e):
+                rep.extra["sims_skipped_known_C08_crash"] = rep.extra.get("sims_skipped_known_C08_crash", 0) + 1
+            else:
+                rep.violation(f"precedence:{label}:{tgt}:{kind}:exception:{type(e).__name__}", {"target": tgt, "specs": specs, "date": date_iso}, repr(e))
             continue
         rep.step()
         want = RA.grouped(kind, None if src is None else df[src].tolist(), hh)
